@@ -133,6 +133,7 @@ def ev_rw(case):
     W = np.zeros((R + 1, n, n))  # step law by number of rejections (single phase only)
     cutmass = np.zeros(n)
     skipped = 0
+    skipped_law = 0
     fkeys = set()
 
     def add_fail(key, what, **kw):
@@ -269,8 +270,19 @@ def ev_rw(case):
         if tail > 1e-12:
             add_fail(f"step/{name}/retry-loop-not-invariant", f"mass cut after {R + 1} attempts differs from r^{R + 1} by {tail!r}")
         norm = 1.0 - cutmass
-        if (norm <= 1e-9).any():
-            add_fail(f"step/{name}/no-accepting-move", "a state has no accepted move within the horizon")
+        # the step law has a unique stationary distribution only if the recorded chain is irreducible on the support;
+        # with this alphabet some targets are not (a state none of whose proposals lands in the support, parity classes
+        # of diagonal moves): the law oracle does not apply there and the case is counted as skipped
+        offdiag = Q - np.diag(np.diag(Q))
+        isolated = [i for i in range(n) if offdiag[i].sum() <= 0.0]
+        reach = (W.sum(axis=0) > 0) | np.eye(n, dtype=bool)
+        for _ in range(n):
+            reach = reach | ((reach.astype(float) @ reach.astype(float)) > 0)
+        irreducible = bool(reach.all()) and not isolated
+        if not irreducible and not ((norm <= 1e-9) & (offdiag.sum(axis=1) > 0)).any():
+            skipped_law = 1
+        elif (norm <= 1e-9).any():
+            add_fail(f"step/{name}/no-accepting-move", "a state whose proposals reach the support has no accepted move within the horizon")
         else:
             P = W.sum(axis=0) / norm[:, None]
             st = stationary(P)
@@ -292,7 +304,7 @@ def ev_rw(case):
                                  stationary=st.tolist(), pi=piT.tolist())
                 tags.add(f"{name}:steplaw:{cfg['target']}:T={T}")
     return {"fails": fails, "n": nexec, "states": n, "transitions": ntrans, "tags": tags, "slack": slack,
-            "skipped": {"warmup-unreachable-start": skipped} if skipped else {},
+            "skipped": dict(({"warmup-unreachable-start": skipped} if skipped else {}), **({"step-law: recorded chain reducible on this target/alphabet": skipped_law} if skipped_law else {})),
             "sample": {"config": cfg, "first_attempt_kernel_row0": A[valid[0]].round(6).tolist()}}
 
 
@@ -346,6 +358,9 @@ def rw_cases(ck):
                 for target in (["unimodal", "bimodal"] if quick else ["unimodal", "bimodal", "ties", "holes"]):
                     for shape in ([[3, 3]] if quick else [[3, 3], [4, 3]]):
                         alph = ALPH["a2"] if limits is None else ([-7.0, -1.0, 1.0, 7.0], [0.1, 0.4, 0.4, 0.1])
+                        if sampler == "MetropolisChain":
+                            # all coordinates move at once: a zero letter is needed for the recorded chain to be irreducible
+                            alph = ([-1.0, 0.0, 1.0], [0.3, 0.4, 0.3]) if limits is None else ([-7.0, -1.0, 0.0, 1.0, 7.0], [0.08, 0.27, 0.3, 0.27, 0.08])
                         dirsets = [None]
                         if sampler == "PcaChain":
                             dirsets = [None, [[1.0, 1.0], [1.0, -1.0]], [[1.0, -1.0], [1.0, 1.0]], [[0.0, 1.0], [1.0, 0.0]]]
